@@ -419,6 +419,9 @@ struct WildSink {
 
 impl MetricSink for WildSink {
     fn emit(&self, m: &str) -> io::Result<usize> {
+        if m.len() % 2 == 0 {
+            std::thread::sleep(Duration::from_micros(200)); // keeps small bounded queues full for a while
+        }
         match self.mode {
             0 => Ok(m.len()),
             1 => Err(io::Error::new(io::ErrorKind::Other, "no")),
@@ -471,7 +474,14 @@ fn area_queue(cx: &mut Cx, r: &mut Rng) {
                 cx.call("queue", "counters", tr, || { let _ = (h.queued(), h.submitted(), h.drained(), h.panics()); let _ = h.stats(); let _ = h.flush(); let _ = format!("{:?}", h); });
             }
             _ => {
-                let m = "q".repeat((i % 7) as usize);
+                // short, long, multi-byte at every alignment: error paths may quote or abbreviate the metric
+                let m = match i % 5 {
+                    0 => "q".repeat((i % 7) as usize),
+                    1 => format!("{}{}", "a".repeat((i % 9) as usize), "é".repeat(60)),
+                    2 => format!("{}{}", "b".repeat((i % 4) as usize), "🎉中".repeat(40)),
+                    3 => "z".repeat(300),
+                    _ => hostile_string(r).0.chars().take(5000).collect(),
+                };
                 let h = &handles[r.usize_below(handles.len())];
                 cx.call("queue", "emit", tr, || { let _ = h.emit(&m); });
             }
@@ -510,8 +520,20 @@ fn area_misc(cx: &mut Cx, r: &mut Rng) {
     });
     // MetricValue Display is reachable through user types; Debug/Clone directly
     cx.call("misc", "MetricValue Debug/Clone", || Json::Null, || {
-        for v in [MetricValue::Signed(i64::MIN), MetricValue::Unsigned(u64::MAX), MetricValue::Float(f64::NAN), MetricValue::PackedSigned(vec![]), MetricValue::PackedUnsigned(vec![0; 3]), MetricValue::PackedFloat(vec![f64::INFINITY])] {
+        for v in [
+            MetricValue::Signed(i64::MIN),
+            MetricValue::Unsigned(u64::MAX),
+            MetricValue::Float(f64::NAN),
+            MetricValue::PackedSigned(vec![]),
+            MetricValue::PackedUnsigned(vec![]),
+            MetricValue::PackedFloat(vec![]),
+            MetricValue::PackedSigned(vec![i64::MIN]),
+            MetricValue::PackedUnsigned(vec![0; 3]),
+            MetricValue::PackedFloat(vec![f64::INFINITY, -0.0]),
+        ] {
             let _ = format!("{:?}", v.clone());
+            // Display is public too (cadence::ext::MetricValue): every variant, including empty packed ones
+            let _ = format!("{}", v);
         }
     });
     // a client over each cheap sink with an empty prefix / prefix of dots
